@@ -39,7 +39,11 @@ pub fn dispatch(op: &str, a: &[&str]) -> Option<Ans> {
             unsafe { so::crypto_scalarmult_base(s.as_mut_ptr(), n.as_ptr()) };
             // object API: KeyPair::from_secret_key
             let kp = dryoc::keypair::StackKeyPair::from_secret_key(n.into());
-            if kp.public_key.as_slice() != q {
+            let kpv = dryoc::keypair::KeyPair::<Vec<u8>, Vec<u8>>::from_secret_key(n.to_vec());
+            let kpm = dryoc::keypair::KeyPair::<Vec<u8>, dryoc::keypair::SecretKey>::from_secret_key(n.into());
+            if kpv.public_key != q || kpv.secret_key != n || kpm.public_key != q {
+                ("mismatch KeyPair<Vec,…>::from_secret_key".into(), ok(&s))
+            } else if kp.public_key.as_slice() != q {
                 ("mismatch from_secret_key".into(), ok(&s))
             } else {
                 (ok(&q), ok(&s))
@@ -215,6 +219,15 @@ pub fn dispatch(op: &str, a: &[&str]) -> Option<Ans> {
                 // a signature made with that key pair verifies under the seed's public key
                 let smsg = kp3.sign_with_defaults(b"from_secret_key".to_vec());
                 match smsg { Ok(m3) => if m3.verify(&dryoc::sign::PublicKey::from(pk)).is_err() { return Some(("mismatch signature by from_secret_key pair does not verify".into(), "n/a".into())); }, Err(_) => return Some(("mismatch sign failed".into(), "n/a".into())) }
+            }
+            // the same constructor with Vec<u8> key containers
+            let kpv = dryoc::sign::SigningKeyPair::<Vec<u8>, Vec<u8>>::from_secret_key(sk.to_vec());
+            if kpv.public_key != pk || kpv.secret_key != sk {
+                return Some(("mismatch SigningKeyPair<Vec,Vec>::from_secret_key".into(), format!("ok {} {}", hex(&spk), hex(&ssk))));
+            }
+            let kpv2 = dryoc::sign::SigningKeyPair::<Vec<u8>, Vec<u8>>::from_seed(&seed);
+            if kpv2.public_key != pk || kpv2.secret_key != sk {
+                return Some(("mismatch SigningKeyPair<Vec,Vec>::from_seed".into(), format!("ok {} {}", hex(&spk), hex(&ssk))));
             }
             let mut inplace_bad = false;
             for (pk0, sk0) in [([0xA5u8; 32], [0xA5u8; 64]), ([0xA5u8; 32], sk), (pk, [0x5Au8; 64]), (pk, sk)] {
